@@ -5,6 +5,8 @@ package main
 import (
 	"fmt"
 	"math/rand"
+	"strconv"
+	"strings"
 	"sync"
 	"sync/atomic"
 	"time"
@@ -45,6 +47,54 @@ func sawJoin(b *groupfake.Broker) bool {
 		}
 	}
 	return false
+}
+
+// aocSeen: the answer of an OffsetCommit of the client has been produced by the fake, or the
+// held request was found undeliverable (token aoc recorded by the holder).
+func aocSeen(b *groupfake.Broker) bool {
+	for _, e := range b.History() {
+		if (e.Kind == "ocommit" && e.Client == clientU) || (e.Kind == "tl" && e.Note == "aoc") {
+			return true
+		}
+	}
+	return false
+}
+
+// selfEndVerdict makes the order checks of kind gen-self-end on the full timeline and returns
+// the timeline to print (without the a… tokens) and the OVERLAP verdicts.
+func selfEndVerdict(all []string, ft *feats) (toks, over []string) {
+	iq, ia, id := -1, -1, -1
+	for i, t := range all {
+		switch {
+		case iq < 0 && strings.HasPrefix(t, "qoc:"):
+			iq = i
+		case iq >= 0 && ia < 0 && t == "aoc":
+			ia = i
+		case id < 0 && t[0] == 'D':
+			id = i
+		}
+		if t[0] != 'a' {
+			toks = append(toks, t)
+		}
+	}
+	if iq < 0 {
+		ft.add("no-commit") // the OffsetCommit never came: nothing to check
+		return toks, nil
+	}
+	end := ia
+	if end < 0 {
+		end = len(all)
+	}
+	for _, t := range all[iq+1 : end] {
+		if strings.HasPrefix(t, "qjo:") || strings.HasPrefix(t, "qlv:") {
+			over = append(over, "OVERLAP:join-before-commit-answered")
+			break
+		}
+	}
+	if id >= 0 && (ia < 0 || id < ia) {
+		over = append(over, "OVERLAP:close-before-commit-answered")
+	}
+	return toks, over
 }
 
 func stableU(b *groupfake.Broker) bool {
@@ -107,13 +157,16 @@ func runGF(sc scen) result {
 		nparts = rr(rng, 1, 3)
 		watch = rng.Intn(4) == 0
 	}
+	if kind == "gen-self-end" {
+		nparts, watch = 1, false
+	}
 	nrec0 := rng.Intn(21)
 	appendDuring := rng.Intn(2) == 0
 
 	ft := newFeats()
 	b := groupfake.New(groupfake.Config{
 		Topics:         map[string]int{topicT: nparts},
-		SessionTimeout: rng.Intn(2) == 0,
+		SessionTimeout: rng.Intn(2) == 0 && kind != "gen-self-end",
 		Logf: func() func(string, ...interface{}) {
 			if verbose {
 				return vlogf
@@ -188,6 +241,8 @@ func runGF(sc scen) result {
 	reviveAfter := time.Duration(-1)
 	setOffsets := 0
 	rebalAct := ""
+	var hold *holder // kind gen-self-end: the first OffsetCommit is held back
+	selfEndCode := 0
 
 	coordAPIs := map[string]bool{"findcoordinator": true, "join": true, "sync": true, "heartbeat": true, "leave": true, "ofetch": true, "ocommit": true}
 
@@ -450,6 +505,35 @@ func runGF(sc scen) result {
 			closeDelay = killAt + ms(rr(rng, 20, 200))
 		}
 		p.callers = rr(rng, 0, 2)
+	case "gen-self-end":
+		// the generation ends ON ITS OWN (a heartbeat is answered with an error) while the commit
+		// loop, a function started with Generation.Start, is still blocked in an OffsetCommit
+		// round trip whose answer is 200-500 ms late; Close comes 20-60 ms after the heartbeat.
+		// Generation.close has to wait for the commit loop: the re-join, the LeaveGroup and the
+		// return of Close all come after the answer of the OffsetCommit.
+		ft.add("gen-self-end-family")
+		ft.add("broker=slow")
+		c, err := strconv.ParseInt(sc.variant, 16, 16)
+		if err != nil {
+			c = 0x1b
+		}
+		selfEndCode = int(c)
+		ft.add("hb=" + hx(selfEndCode))
+		hold = newHolder(tl, ms(rr(rng, 200, 500)))
+		tl.aoc = true
+		appendDuring = false
+		nrec0 = rr(rng, 3, 8)
+		p.callers = 0
+		hbDone := false
+		st.fault = func(a string, n int) groupfake.Fault {
+			if a == "heartbeat" && !hbDone && hold.held() {
+				hbDone = true
+				return groupfake.Fault{Code: int16(selfEndCode)}
+			}
+			return groupfake.Fault{}
+		}
+		trig = "hbfault"
+		closeDelay = ms(rr(rng, 20, 60))
 	case "late-reply-reader":
 		// Close (or the end of a call's context) while a request of the Reader is in flight;
 		// the fake answers it 2..4 x later than the Close comes
@@ -503,6 +587,10 @@ func runGF(sc scen) result {
 	// ---- fault function (journal + faults)
 	b.SetFault(func(api, client, member string) groupfake.Fault {
 		if client != clientU {
+			return groupfake.Fault{}
+		}
+		if api == "ocommit" && hold != nil && hold.forwarded() {
+			// the held OffsetCommit reaches the fake now: it was journalled when it was taken
 			return groupfake.Fault{}
 		}
 		tl.req(api, member)
@@ -579,7 +667,11 @@ func runGF(sc scen) result {
 		waitOr(ms(600), func() bool { return b.State() == groupfake.StateStable && b.MemberOf(clientV) != "" })
 		// (no new baseline: the auxiliary Reader is closed before the census as well)
 	}
-	rd := mkReader(clientU, e.cc.wrap(b.DialFor(clientU)))
+	dialU := dialFunc(b.DialFor(clientU))
+	if hold != nil {
+		dialU = hold.wrap(dialU)
+	}
+	rd := mkReader(clientU, e.cc.wrap(dialU))
 	vlogf("scenario %d: mode=%s kind=%s commitmode=%s qcap=%d nrec0=%d parts=%d hb=%v sess=%v reb=%v jb=%v maxWait=%v lag=%v trig=%s closeDelay=%v close2=%q callers=%d ncalls=%d wd=%v",
 		sc.id, sc.mode, kind, commitmode, qcap, nrec0, nparts, hb, sess, reb, jb, maxWait, lag, trig, closeDelay, p.close2, p.callers, p.ncalls, e.wd)
 
@@ -667,6 +759,10 @@ func runGF(sc scen) result {
 			if !waitCh(ms(600), st.commitReq) {
 				ft.add("trigger-timeout")
 			}
+		case "hbfault":
+			if !waitOr(e.wd, func() bool { return hbFaultSeen(b) }) {
+				ft.add("trigger-timeout")
+			}
 		case "req":
 			if !waitCh(fallback, st.watchCh) {
 				ft.add("trigger-timeout")
@@ -724,9 +820,30 @@ func runGF(sc scen) result {
 		}
 		go func() { wg.Wait(); close(callersDone) }()
 	}
+	var selfEnd sync.WaitGroup
+	if hold != nil {
+		// one caller: FetchMessage, then a synchronous CommitMessages whose context never ends
+		selfEnd.Add(1)
+		go func() {
+			defer selfEnd.Done()
+			var last kafka.Message
+			have := false
+			if e.readerCall(rd, 'f', polNever, 0, &last, &have) == "msg" {
+				ft.add("commit-never")
+				e.readerCall(rd, 'm', polNever, 0, &last, &have)
+			}
+		}()
+	}
 	e.runProgram(rd, p, rng)
 	close(stopBg)
 	bg.Wait()
+	if hold != nil {
+		selfEnd.Wait() // bounded: every call is under its watchdog
+		// the held request is answered (or found undeliverable) before the timeline ends
+		if !waitOr(hold.delay+2*time.Second, func() bool { return aocSeen(b) }) {
+			ft.add("no-aoc")
+		}
+	}
 
 	// the auxiliary Reader is closed before the census
 	auxMu.Lock()
@@ -746,6 +863,18 @@ func runGF(sc scen) result {
 	st.mu.Unlock()
 
 	toks, res := e.finish(quiet, grace, b.Close)
+	if hold != nil {
+		vlogf("full timeline: %s", joinToks(toks))
+		var over []string
+		toks, over = selfEndVerdict(toks, ft)
+		if len(over) > 0 {
+			if res == "ok" {
+				res = strings.Join(over, "+")
+			} else {
+				res += "+" + strings.Join(over, "+")
+			}
+		}
+	}
 	deriveTags(toks, ft)
 	return result{
 		args:  fmt.Sprintf("%s %s ; %s", sc.mode, commitmode, joinToks(toks)),
